@@ -118,6 +118,14 @@ fn run_case(rep: &Report, acc: &mut Acc, c: &Case) {
         }
         EncOut::Panic(_) => {} // C09
         other => {
+            // label as written: known from the LT bits when a packet was produced (empty after a substitution)
+            let fits_as_written = match other {
+                EncOut::Fragmented(..) if c.b >= 1 && (buf[0] >> 4) & 3 == 3 && c.l != Lbl::ReUse => fits_empty,
+                _ => false,
+            };
+            if fits_as_written && !fits_full {
+                rep.violation(&format!("C01|fits-as-written-but-not-complete|{}", reg), rank, || (format!("encap(pdu_len={}, pt={:#06x}, label={}, buffer={}) wrote a re-use label (empty) so that GSE length {} <= 4095 and packet {} <= buffer, but returned {:?} instead of a completed packet", c.p, c.pt, c.l.short(), c.b, 2 + c.p, 4 + c.p, other), wit()));
+            }
             if fits_full {
                 rep.violation(&format!("C01|fits-but-not-complete|{}|{}", other.class(), reg), rank, || (format!("encap(pdu_len={}, pt={:#06x}, label={}, buffer={}) must report a completed packet (GSE length {} <= 4095, packet {} <= buffer) but returned {:?}", c.p, c.pt, c.l.short(), c.b, 2 + lw_full + c.p, 4 + lw_full + c.p, other), wit()));
             }
